@@ -66,7 +66,11 @@ func (e *Exec) entryState(scen map[string]types.Type) *State {
 		st.vals[p] = v
 		e.params[p.Name()] = v
 		e.inputs = append(e.inputs, inputVar{Name: p.Name(), Term: v.S, Type: p.Type().String()})
-		if i == 0 && fn.Signature.Recv() != nil {
+		_, nilOK := map[string]string(nil)["x"]
+		if e.fc != nil {
+			_, nilOK = e.fc.Flags["nil_receiver_ok"]
+		}
+		if i == 0 && fn.Signature.Recv() != nil && !nilOK {
 			if _, ok := p.Type().Underlying().(*types.Pointer); ok {
 				e.sc.assert(fmt.Sprintf("(not (= %s 0))", v.S))
 				st.nonnil[v.S] = true
@@ -775,6 +779,7 @@ func (e *Exec) loopVars(fn *ssa.Function, l *loopInfo, st *State, at *ssa.BasicB
 			fmt.Fprintf(os.Stderr, "loopvar %s: %s = %q (%v) fn=%v A=%v\n", fn.Name(), n, c.v.S, c.v.T, c.v.Fn != nil, c.v.A != nil)
 		}
 	}
+	fromAlloc := map[string]bool{}
 	for _, b := range fn.Blocks {
 		if b != at && !b.Dominates(at) {
 			continue
@@ -782,9 +787,12 @@ func (e *Exec) loopVars(fn *ssa.Function, l *loopInfo, st *State, at *ssa.BasicB
 		for _, ins := range b.Instrs {
 			if a, ok := ins.(*ssa.Alloc); ok && a.Comment != "" {
 				if v, ok := st.vals[a]; ok {
-					if _, dup := vars[a.Comment]; !dup {
+					// the cell is the truth for an address-taken variable (a debug
+					// reference only names the value stored at that point)
+					if _, dup := fromAlloc[a.Comment]; !dup {
 						lv := e.specLoad(st, v)
 						vars[a.Comment] = lv
+						fromAlloc[a.Comment] = true
 					}
 				}
 			}
@@ -856,6 +864,9 @@ func (e *Exec) invCtx(fn *ssa.Function, l *loopInfo, st *State) *specCtx {
 func (e *Exec) loopModified(fn *ssa.Function, l *loopInfo) (map[string]string, bool) {
 	keys := map[string]string{}
 	all := false
+	// freshness relative to the loop: only objects allocated inside the body are invisible at its head
+	freshScope = l.body
+	defer func() { freshScope = nil }()
 	for b := range l.body {
 		for _, ins := range b.Instrs {
 			a := e.eng.instrWrites(ins, e.sc, fn)
